@@ -171,3 +171,45 @@ Example C07_ex_bsid_rejected :
   fst (compressBegin cctx_zero (Some (mkPrefs 8 1 0 0 0 0 9 0 0)) (UsingCDict [1; 2; 3])) = Err FC_ERR_maxBlockSize_invalid /\
   compressFrame ex_blk ex_content (Some (mkPrefs 3 0 0 0 0 0 0 0 0)) = Err FC_ERR_maxBlockSize_invalid.
 Proof. vm_compute. repeat split; reflexivity. Qed.
+
+(* ================================================================ [stream/lnk6] LINKED blocks and dictionaries: blk_contract DISCHARGED
+   (delimited trailing section; see the same section of Properties_C03.v for the construction and for what remains assumed:
+   only `forall n, lcall_ok (orc n)`, i.e. the premise of the C11 per-call theorems for every call of the oracle) *)
+From LZ4V Require Import Model.Mem Model.Fast Model.FastApi Model.FastStream Model.HcMidStream Model.HcTabStream Model.HcOptStream.
+From LZ4V Require Import Proofs.BlkInstLinked Proofs.BlkInstLinkedFrame Proofs.BlkInstLinkedExamples.
+
+Theorem C07_frame_conformant_linked_discharged :
+  forall orc, (forall n, lcall_ok (orc n)) -> C07_body (blk_of orc).
+Proof. exact c07_linked. Qed.
+Print Assumptions C07_frame_conformant_linked_discharged.
+
+Theorem C07_frame_conformant_linked_fast : forall orc, (forall n, fcall_ok (orc n)) -> C07_body (blk_fast orc).
+Proof. exact c07_linked_fast. Qed.
+Print Assumptions C07_frame_conformant_linked_fast.
+Theorem C07_frame_conformant_linked_hc_mid : forall orc, (forall n, hcall_ok (orc n)) -> C07_body (blk_mid orc).
+Proof. exact c07_linked_mid. Qed.
+Print Assumptions C07_frame_conformant_linked_hc_mid.
+Theorem C07_frame_conformant_linked_hc_opt : forall orc, (forall n, ocall_ok (orc n)) -> C07_body (blk_opt orc).
+Proof. exact c07_linked_opt. Qed.
+Print Assumptions C07_frame_conformant_linked_hc_opt.
+
+(* the contract itself, for any oracle meeting the per-call premise *)
+Theorem C07_blk_contract_linked :
+  forall orc, (forall n, lcall_ok (orc n)) ->
+  blk_contract strict_valid (blk_of orc) /\ blk_contract spec_decode (blk_of orc) /\ Proofs.FrameRoundTrip.blk_bytes (blk_of orc).
+Proof. exact blk_of_contract. Qed.
+Print Assumptions C07_blk_contract_linked.
+
+(* [C07_body blk] is the conclusion of C07_frame_conformant for that compressor *)
+Theorem C07_body_is_C07_frame_conformant : forall blk, blk_contract strict_valid blk -> C07_body blk.
+Proof. exact c07_body_of. Qed.
+Print Assumptions C07_body_is_C07_frame_conformant.
+
+Example C07_linked_nonvacuous :
+  (forall n, fcall_ok (ex_lorc n)) /\
+  blk_fast ex_lorc 0 FastStreamExamples.ex_dict FastStreamExamples.ex_b1 = Some (r_out FastStreamExamples.ex_r1) /\
+  length (r_out FastStreamExamples.ex_r1) = 20%nat /\
+  blk_fast ex_lorc 1 (FastStreamExamples.ex_dict ++ FastStreamExamples.ex_b1) FastStreamExamples.ex_b2 = Some (r_out FastStreamExamples.ex_r2) /\
+  blk_fast ex_lorc 1 FastStreamExamples.ex_b1 FastStreamExamples.ex_b2 = None.
+Proof. exact (conj ex_lorc_ok ex_lblk_val). Qed.
+(* ================================================================ end of [stream/lnk6] *)
